@@ -1,9 +1,29 @@
 /-
-  hsdriver — line-protocol driver of the executable model.  One request per line on stdin,
-  one canonical reply per line on stdout.  Imports nothing outside core (links as lean_exe).
+  hsdriver — line-protocol driver of the executable model.  One request per line on stdin
+  (`<property id> <command> <arguments…>`), one canonical reply per line on stdout.
+  Imports nothing outside core (links as a lean_exe).
 -/
 import Hs.Model.Vx
+import Hs.Drv.C01
+import Hs.Drv.C02
+import Hs.Drv.C03
+import Hs.Drv.C04
+import Hs.Drv.C05
+import Hs.Drv.C06
+import Hs.Drv.C07
+import Hs.Drv.C08
+import Hs.Drv.C09
+import Hs.Drv.C10
+import Hs.Drv.C11
 import Hs.Drv.C12
+import Hs.Drv.C13
+import Hs.Drv.C14
+import Hs.Drv.C15
+import Hs.Drv.C16
+import Hs.Drv.C17
+import Hs.Drv.C18
+import Hs.Drv.C19
+import Hs.Drv.C20
 
 open Hs
 
@@ -12,7 +32,26 @@ def dispatch (line : String) : String :=
   | [] => "bad-request"
   | cmd :: ts =>
     match cmd with
-    | "cmp" => Drv.C12.handle ts
+    | "C01" => Drv.C01.handle ts
+    | "C02" => Drv.C02.handle ts
+    | "C03" => Drv.C03.handle ts
+    | "C04" => Drv.C04.handle ts
+    | "C05" => Drv.C05.handle ts
+    | "C06" => Drv.C06.handle ts
+    | "C07" => Drv.C07.handle ts
+    | "C08" => Drv.C08.handle ts
+    | "C09" => Drv.C09.handle ts
+    | "C10" => Drv.C10.handle ts
+    | "C11" => Drv.C11.handle ts
+    | "C12" => Drv.C12.handle ts
+    | "C13" => Drv.C13.handle ts
+    | "C14" => Drv.C14.handle ts
+    | "C15" => Drv.C15.handle ts
+    | "C16" => Drv.C16.handle ts
+    | "C17" => Drv.C17.handle ts
+    | "C18" => Drv.C18.handle ts
+    | "C19" => Drv.C19.handle ts
+    | "C20" => Drv.C20.handle ts
     | "echo" => match Vx.pVal ts with
       | some (v, _) => "ok " ++ Vx.showVal v
       | none => "bad-request"
